@@ -16,6 +16,7 @@ type DeviceCfg struct {
 	Protocol string   `json:"protocol,omitempty"`
 	Doors    []string `json:"doors,omitempty"`
 	Raw      bool     `json:"raw,omitempty"` // build the Device literal directly instead of NewDevice (keeps Protocol verbatim)
+	TZ       string   `json:"tz,omitempty"`  // IANA zone given as the controller's time zone ("" = none: UTC for a literal, nil for NewDevice)
 }
 
 type ClientCfg struct {
